@@ -78,6 +78,7 @@ func typeOfRecv(v value) types.Type {
 const (
 	rvValid = 1
 	rvAddr  = 2
+	rvRO    = 4 // obtained through an unexported struct field: Set* and Interface panic (reflect's flagRO)
 )
 
 type rv struct {
@@ -85,6 +86,7 @@ type rv struct {
 	addr *value // when addressable
 	val  value  // when not addressable
 	ok   bool
+	ro   bool
 }
 
 func unpackRV(v value) rv {
@@ -95,9 +97,21 @@ func unpackRV(v value) rv {
 	}
 	t := (*(s[0].(*value))).(rtypeBox).t
 	if fl&rvAddr != 0 {
-		return rv{t: t, addr: s[1].(*value), ok: true}
+		return rv{t: t, addr: s[1].(*value), ok: true, ro: fl&rvRO != 0}
 	}
-	return rv{t: t, val: s[1], ok: true}
+	return rv{t: t, val: s[1], ok: true, ro: fl&rvRO != 0}
+}
+
+// withRO marks a packed Value as read-only when its parent was, or when it was reached through an unexported field.
+func withRO(v value, ro bool) value {
+	if !ro {
+		return v
+	}
+	s := v.(structure)
+	if fl, _ := s[2].(uintptr); fl&rvValid != 0 {
+		return structure{s[0], s[1], fl | rvRO}
+	}
+	return v
 }
 
 func (r rv) get() value {
@@ -477,21 +491,24 @@ func registerReflect() {
 	})
 	vm("Type", func(fr *frame, r rv, a []value) value { return fr.i.mkType(r.must("Type").t) })
 	vm("CanAddr", func(fr *frame, r rv, a []value) value { return r.addr != nil })
-	vm("CanSet", func(fr *frame, r rv, a []value) value { return r.addr != nil })
-	vm("CanInterface", func(fr *frame, r rv, a []value) value { return r.must("CanInterface").ok })
+	vm("CanSet", func(fr *frame, r rv, a []value) value { return r.addr != nil && !r.ro })
+	vm("CanInterface", func(fr *frame, r rv, a []value) value { return !r.must("CanInterface").ro })
 	vm("Interface", func(fr *frame, r rv, a []value) value {
 		r.must("Interface")
+		if r.ro {
+			panic(targetPanicMsg("reflect.Value.Interface: cannot return value obtained from unexported field or method"))
+		}
 		if _, isIface := r.t.Underlying().(*types.Interface); isIface {
 			return r.get()
 		}
 		return iface{t: r.t, v: copyVal(r.get())}
 	})
-	vm("Elem", func(fr *frame, r rv, a []value) value { return rvElem(r.must("Elem")) })
+	vm("Elem", func(fr *frame, r rv, a []value) value { return withRO(rvElem(r.must("Elem")), r.ro) })
 	vm("Addr", func(fr *frame, r rv, a []value) value {
 		if r.must("Addr").addr == nil {
 			panic(targetPanicMsg("reflect.Value.Addr of unaddressable value"))
 		}
-		return packRV(types.NewPointer(r.t), r.addr)
+		return withRO(packRV(types.NewPointer(r.t), r.addr), r.ro)
 	})
 	vm("IsNil", func(fr *frame, r rv, a []value) value {
 		r.must("IsNil")
@@ -560,24 +577,25 @@ func registerReflect() {
 			panic(targetPanicMsg("reflect: Field index out of range"))
 		}
 		ft := st.Field(k).Type()
+		ro := r.ro || !st.Field(k).Exported()
 		if r.addr != nil {
-			return packRVAddr(ft, &(*r.addr).(structure)[k])
+			return withRO(packRVAddr(ft, &(*r.addr).(structure)[k]), ro)
 		}
-		return packRV(ft, r.val.(structure)[k])
+		return withRO(packRV(ft, r.val.(structure)[k]), ro)
 	})
 	vm("Index", func(fr *frame, r rv, a []value) value {
 		r.must("Index")
 		switch u := r.t.Underlying().(type) {
 		case *types.Slice:
 			s := r.get().([]value)
-			return packRVAddr(u.Elem(), &s[fr.i.indexIn(a[1], len(s))])
+			return withRO(packRVAddr(u.Elem(), &s[fr.i.indexIn(a[1], len(s))]), r.ro)
 		case *types.Array:
 			if r.addr != nil {
 				arr := (*r.addr).(array)
-				return packRVAddr(u.Elem(), &arr[fr.i.indexIn(a[1], len(arr))])
+				return withRO(packRVAddr(u.Elem(), &arr[fr.i.indexIn(a[1], len(arr))]), r.ro)
 			}
 			arr := r.val.(array)
-			return packRV(u.Elem(), arr[fr.i.indexIn(a[1], len(arr))])
+			return withRO(packRV(u.Elem(), arr[fr.i.indexIn(a[1], len(arr))]), r.ro)
 		case *types.Basic:
 			b := strBytes(r.get())
 			return packRV(types.Typ[types.Uint8], b[fr.i.indexIn(a[1], len(b))])
@@ -636,6 +654,9 @@ func registerReflect() {
 		return fr.i.conv(types.Typ[types.Float64], r.must("Float").t.Underlying(), r.get())
 	})
 	set := func(r rv, v value) {
+		if r.ro {
+			panic(targetPanicMsg("reflect: reflect.Value.Set using value obtained using unexported field"))
+		}
 		if r.addr == nil {
 			panic(targetPanicMsg("reflect: reflect.Value.Set using unaddressable value"))
 		}
